@@ -258,39 +258,59 @@ let rec drop_z n l = if zle n Z0 then l else (match l with [] -> [] | _ :: r -> 
    CURRENT state (the array behind s.data() + off is [self_src s off]), the spec operation from the current std
    contents.  (off, count) are reduced to a range of the string exactly like the harness does:
    off' = min(off, size()), count' = min(count, size() - off') *)
-let self_ops t name : ((istr -> op) * (z list -> sop)) list =
+let nat_of_z z = let rec go n acc = if n <= 0 then acc else go (n - 1) (S acc) in go (int_of_z z) O
+let bind_r r f = match r with Ok a -> f a | Contract -> Contract | UB k -> UB k | OutOfFuel -> OutOfFuel
+
+(* a sub-operation = (model operation, spec operation, optional DIRECT model function).  The direct function is the
+   in-place loop of ModelAlias.v (what the code does when the source lies inside the string itself); C04_self_loops_are_snapshot
+   proves it equal to [step] on the snapshot operation, the driver runs the in-place loop *)
+let self_ops t name : ((istr -> op) * (z list -> sop) * (istr -> istr res) option) list =
   let clamp size off n = let o = zmin off size in (o, zmin n (zsub size o)) in
-  let mk fm fs = [ ((fun s -> fm s), (fun l -> fs l)) ] in
+  let mk fm fs = [ ((fun s -> fm s), (fun l -> fs l), None) ] in
+  let mkd fm fs d = [ ((fun s -> fm s), (fun l -> fs l), Some d) ] in
   let nz = next_z in
   match name with
   | "aps" | "ars" ->
       let off = nz t in let n = nz t in
-      mk (fun s -> let o, k = clamp (get_size s) off n in
+      mkd (fun s -> let o, k = clamp (get_size s) off n in
                    if name = "aps" then OAppendPtr (self_src s o, k) else OAppendRange (List.filteri (fun i _ -> i < int_of_z k) (self_src s o)))
          (fun l -> let o, k = clamp (zlen l) off n in
                    if name = "aps" then SAppendPtr (drop_z o l, k) else SAppendRange (List.filteri (fun i _ -> i < int_of_z k) (drop_z o l)))
+         (fun s -> let o, k = clamp (get_size s) off n in
+                   if name = "aps" then append_self_m s o k
+                   else if zle k (zsub s.cap (get_size s)) then push_back_self_loop s o (nat_of_z k) else Contract)
   | "asps" ->
       let off = nz t in let n = nz t in
       mk (fun s -> let o, k = clamp (get_size s) off n in OAssignPtr (self_src s o, k))
          (fun l -> let o, k = clamp (zlen l) off n in SAssignPtr (drop_z o l, k))
   | "ips" ->
       let i = nz t in let off = nz t in let n = nz t in
-      mk (fun s -> let o, k = clamp (get_size s) off n in OInsertPtr (i, self_src s o, k))
+      mkd (fun s -> let o, k = clamp (get_size s) off n in OInsertPtr (i, self_src s o, k))
          (fun l -> let o, k = clamp (zlen l) off n in SInsertPtr (i, drop_z o l, k))
+         (fun s -> let o, k = clamp (get_size s) off n in insert_self_m s i o k)
   | "zeqs" | "zcss" ->
       let off = nz t in
       mk (fun s -> OAssignCstr (self_src s (zmin off (get_size s)))) (fun l -> SAssignCstr (drop_z (zmin off (zlen l)) l @ [ Z0 ]))
   | "acss" ->
       let off = nz t in
-      mk (fun s -> OAppendCstr (self_src s (zmin off (get_size s)))) (fun l -> SAppendCstr (drop_z (zmin off (zlen l)) l @ [ Z0 ]))
+      mkd (fun s -> OAppendCstr (self_src s (zmin off (get_size s)))) (fun l -> SAppendCstr (drop_z (zmin off (zlen l)) l @ [ Z0 ]))
+          (fun s -> let o = zmin off (get_size s) in bind_r (strlen_m (arr_view (self_src s o))) (fun len -> append_self_m s o len))
   | "icss" ->
       let i = nz t in let off = nz t in
-      mk (fun s -> OInsertCstr (i, self_src s (zmin off (get_size s)))) (fun l -> SInsertCstr (i, drop_z (zmin off (zlen l)) l @ [ Z0 ]))
-  | "asts" | "pess" | "plss" -> mk (fun s -> OAppendStr (contents s)) (fun l -> SAppendStr l)
+      mkd (fun s -> OInsertCstr (i, self_src s (zmin off (get_size s)))) (fun l -> SInsertCstr (i, drop_z (zmin off (zlen l)) l @ [ Z0 ]))
+          (fun s -> let o = zmin off (get_size s) in
+                    if Big.gt (big_of_z i) (big_of_z (get_size s)) then Contract
+                    else bind_r (strlen_m (arr_view (self_src s o))) (fun len -> insert_self_m s i o len))
+  | "plss" -> mk (fun s -> OAppendStr (contents s)) (fun l -> SAppendStr l)   (* e = e + e: the left operand is copied first *)
+  | "asts" | "pess" ->
+      (* append(str) with str = *this: append(str.begin(), str.end()), pointers into the array that grows *)
+      mkd (fun s -> OAppendStr (contents s)) (fun l -> SAppendStr l)
+          (fun s -> if zle (get_size s) (zsub s.cap (get_size s)) then push_back_self_loop s Z0 (nat_of_z (get_size s)) else Contract)
   | "ists" | "ivss" ->
       let i = nz t in
-      mk (fun s -> OInsertPtr (i, self_src s Z0, get_size s)) (fun l -> SInsertPtr (i, l, zlen l))
-  | "avss" -> mk (fun s -> OAppendPtr (self_src s Z0, get_size s)) (fun l -> SAppendPtr (l, zlen l))
+      mkd (fun s -> OInsertPtr (i, self_src s Z0, get_size s)) (fun l -> SInsertPtr (i, l, zlen l))
+          (fun s -> insert_self_m s i Z0 (get_size s))
+  | "avss" -> mkd (fun s -> OAppendPtr (self_src s Z0, get_size s)) (fun l -> SAppendPtr (l, zlen l)) (fun s -> append_self_m s Z0 (get_size s))
   | "zself" -> []   (* s.assign(s); s = s: the defaulted copy assignment from itself changes nothing *)
   | "zvself" -> mk (fun s -> OAssignViewSub (contents s, Z0, npos_z)) (fun l -> SAssignViewSub (l, Z0, npos_z))
   | "sws" -> mk (fun s -> OSwapWith (contents s)) (fun l -> SSwapWith l)
@@ -316,7 +336,7 @@ let self_names = [ "aps"; "ars"; "asps"; "ips"; "zeqs"; "zcss"; "acss"; "icss"; 
 
 let read_op_named t =
   let name = (match t.rest with x :: _ -> x | [] -> "") in
-  let const l = List.map (fun (m, sp) -> ((fun (_ : istr) -> m), (fun (_ : z list) -> sp))) l in
+  let const l = List.map (fun (m, sp) -> ((fun (_ : istr) -> m), (fun (_ : z list) -> sp), None)) l in
   if List.mem name self_names then (ignore (next_str t); (name, self_ops t name))
   else let name, l = read_op_named0 t name in (name, const l)
 
@@ -347,17 +367,17 @@ let run_case op t =
       (* the basic_inplace_string argument of a harness operation is constructed first *)
       let arg_exists name subs s0 =
         if name = "plsx" || name = "pesx" then
-          List.for_all (fun (fm, _) -> match fm s0 with OAppendPtr (l, _) -> List.length l <= 5 | _ -> true) subs
+          List.for_all (fun (fm, _, _) -> match fm s0 with OAppendPtr (l, _) -> List.length l <= 5 | _ -> true) subs
         else
         (not (str_arg name))
-        || List.for_all (fun (fm, _) -> match str_of (fm s0) with Some l -> fits cap l | None -> true) subs
+        || List.for_all (fun (fm, _, _) -> match str_of (fm s0) with Some l -> fits cap l | None -> true) subs
       in
       let rec go_m s acc = function
         | [] -> join (List.rev acc)
         | (name, subs) :: r -> (
             let rec run_subs s ret = function
               | [] -> Ok (s, ret)
-              | (fm, _) :: more -> (
+              | (fm, _, direct) :: more -> (
                   let o = fm s in
                   let ret' =
                     if name = "sws" then ret else
@@ -373,7 +393,7 @@ let run_case op t =
                             | _ -> ret)
                         | _ -> ret)
                   in
-                  match step s o with
+                  match (match direct with Some f -> f s | None -> step s o) with
                   | Ok s' -> run_subs s' ret' more
                   | Contract -> Contract
                   | UB k -> UB k
@@ -395,7 +415,7 @@ let run_case op t =
         | (name, subs) :: r -> (
             let rec run_subs l ret = function
               | [] -> `Done (l, ret)
-              | (fm, fs) :: more -> (
+              | (fm, fs, _) :: more -> (
                   let o = fs l in
                   let ret' =
                     if name = "sws" then ret else
@@ -448,7 +468,10 @@ let run_case op t =
                 | UB k -> UB k
                 | OutOfFuel -> OutOfFuel )
       in
+      let valid = zle first last && zle last (zlen l) in
       let spec =
+        if not valid then "contract"   (* documented precondition: [first, last) is a range of the string *)
+        else
         match ins with
         | Some x -> (
             let cnt = z_of_big (Big.sub (big_of_z last) (big_of_z first)) in
@@ -484,6 +507,7 @@ let run_case op t =
         | _ -> s_cstr (drop_z off l @ [ Z0 ])
       in
       let spec =
+        if iter && not (zle a b && zle b (zlen l)) then "contract" else
         match ins with
         | Some x -> (
             match s_replace l a (if iter then zsub b a else b) x with
